@@ -48,7 +48,8 @@ def main(tier):
         accepted = []          # (space name, type, rows) for the run-time half
         per_space = {}
         nonex = useless = 0
-        rt_types = {"Bool", "E", "P", "(Bool,Bool)", "Option[Bool]", "(Bool,Bool)+bind", "K", "N", "Int64", "String", "Char", "Option[E]", "(E,Bool)"}
+        rt_types = {"Bool", "E", "P", "(Bool,Bool)", "Option[Bool]", "(Bool,Bool)+bind", "K", "N", "Int64", "String", "Char", "Option[E]", "(E,Bool)",
+                    "Int64-dense", "Int32-dense", "Int32"}
         for space in spaces:
             name, t = space[0], space[1]
             fns = []
@@ -127,7 +128,8 @@ def main(tier):
         bindir = vcommon.build_plain(need_boots=True)
         tc = core.Toolchain(bindir, vcommon.build_fast(need_boots=True))
         if quick:
-            accepted = accepted[::4]
+            dense = [a for a in accepted if a[0].endswith("-dense")]
+            accepted = [a for a in accepted if not a[0].endswith("-dense")][::4] + dense
         per_unit = 1500
         units = []
         for i in range(0, len(accepted), per_unit):
